@@ -123,6 +123,15 @@ def replay(case):
     guard.call(parser.get_llone_parse_tree, [cfgh.TERM_POOLS[case["tpool"]]["a"]], timeout=2.0)
     evs.append(dict(_dict_event("get_follow_set", G, guard.call(parser.get_follow_set)), after="parse"))
     evs.append(dict(cfgh.bool_event("is_llone_parsable", G, guard.call(parser.is_llone_parsable)), after="parse"))
+    # the verdict on what the clean-up conversions return (same language, and the same productions when there is nothing
+    # to clean up): judged against the projection of that grammar
+    for conv in ("eliminate_unit_productions", "remove_useless_symbols"):
+        rc = guard.call(getattr(g, conv), timeout=3.0)
+        if rc[0] == "ok" and len(rc[1].productions) <= 12:
+            G2 = cfgh.project(rc[1])
+            p2 = LLOneParser(rc[1])
+            evs.append(dict(cfgh.bool_event("is_llone_parsable", G2, guard.call(p2.is_llone_parsable)), via=conv))
+            evs.append(dict(_dict_event("get_follow_set", G2, guard.call(p2.get_follow_set)), via=conv))
     words = cfgh.words_upto(case["tpool"], case["L"], extra=("c",) if any("c" in b for _, b in case["prods"]) else ())
     if len(words) > 60:
         words = [w for w in words if len(w) <= 3]
